@@ -429,7 +429,9 @@ def ace_st(draw, platform: str = "ios", version: str = "0", kmax: int = 4, group
         rec["logs"] = [draw(st.sampled_from(["log", "log-input"]))]
     if opaque and draw(st.integers(0, 9)) < 2:
         rec["opq"] = draw(st.sampled_from([["fragments"], ["dscp", "ef"], ["precedence", "critical"], ["dscp", "af31"],
-                                           ["dscp", "cs5"], ["time-range", "after6pm"], ["match-any", "tos", "max-throughput"]]))
+                                           ["dscp", "cs5"], ["time-range", "after6pm"], ["match-any", "tos", "max-throughput"],
+                                           # operands are free text after their keyword: any characters
+                                           ["time-range", "office_hours"], ["time-range", "whEU"], ["time-range", "t.1"]]))
     if rec["logs"] and (rec["flags"] or rec["opq"]) and draw(st.booleans()):
         rec["lf"] = True
     if noise and draw(st.integers(0, 9)) < 3:
@@ -761,7 +763,11 @@ def remark_text_st():
     tricky = st.sampled_from(["10", "permit ip any any", "deny tcp any any eq 80", "remark", "20 remark x",
                               "host 10.0.0.1", "eq www", "log", "4294967295", "ip access-list extended X",
                               "statistics per-entry", "description d"])
-    return st.lists(st.one_of(word, word, word, tricky), min_size=1, max_size=4).map(" ".join)
+    short = st.lists(st.one_of(word, word, word, tricky), min_size=1, max_size=4).map(" ".join)
+    # long texts: around and beyond 100 characters (the device limit for a remark; the library sets none)
+    long_ = st.tuples(st.integers(70, 130), st.lists(word, min_size=20, max_size=20)).map(
+        lambda t: " ".join(t[1] * 2)[: t[0]].strip() or "x")
+    return st.one_of(short, short, short, short, short, short, short, long_)
 
 
 def validate_acl(case) -> None:
